@@ -370,14 +370,14 @@ theorem own_rxMarker (hO : MOwned w) {i : Nat} {p : List Nat} {idx : Nat}
   repeat' split
   all_goals exact hO.step_keep ht (NoneLe.refl _) trivial (fun _ => Nat.le_refl _)
 
-theorem own_rxClaim (hO : MOwned w) {k : Nat} {p : List Nat}
-    (ht : w.threads[tid]? = some ⟨prog, .rxClaim k p, regs, outs⟩) :
-    MOwned (next w tid (stepThread w.sys ⟨prog, .rxClaim k p, regs, outs⟩)) := by
+theorem own_rxClaim (hO : MOwned w) {k : Nat} {p : List Nat} {idx : Nat}
+    (ht : w.threads[tid]? = some ⟨prog, .rxClaim k p idx, regs, outs⟩) :
+    MOwned (next w tid (stepThread w.sys ⟨prog, .rxClaim k p idx, regs, outs⟩)) := by
   simp only [stepThread]
   split
   · next hst =>
-    have hcnt : ∀ k', ownerCount ⟨prog, .rxClaim k p, regs, outs⟩ k' ≤
-        ownerCount ⟨prog, .rxCopy k p, regs, outs⟩ k' := by
+    have hcnt : ∀ k', ownerCount ⟨prog, .rxClaim k p idx, regs, outs⟩ k' ≤
+        ownerCount ⟨prog, .rxVerify k p idx, regs, outs⟩ k' := by
       intro k'
       simp only [ownerCount, tcount, pcount, Pc.claim]
       own_arith
@@ -385,6 +385,29 @@ theorem own_rxClaim (hO : MOwned w) {k : Nat} {p : List Nat}
     intro _ R h0
     exact Nat.le_trans (h0 (by rw [hst]; simp)) (Nat.add_le_add_left (hcnt k) R)
   · exact hO.step_keep ht (NoneLe.refl _) trivial (fun _ => Nat.le_refl _)
+
+theorem own_rxVerify (hO : MOwned w) {k : Nat} {p : List Nat} {idx : Nat}
+    (ht : w.threads[tid]? = some ⟨prog, .rxVerify k p idx, regs, outs⟩) :
+    MOwned (next w tid (stepThread w.sys ⟨prog, .rxVerify k p idx, regs, outs⟩)) := by
+  simp only [stepThread]
+  split
+  all_goals exact hO.step_keep ht (NoneLe.refl _) trivial (fun _ => Nat.le_refl _)
+
+theorem own_rxUnclaim (hO : MOwned w) {k : Nat}
+    (ht : w.threads[tid]? = some ⟨prog, .rxUnclaim k, regs, outs⟩) :
+    MOwned (next w tid (stepThread w.sys ⟨prog, .rxUnclaim k, regs, outs⟩)) := by
+  have hcnt : ∀ (outs' : List String) (k' : Nat),
+      ownerCount ⟨prog, .rxUnclaim k, regs, outs⟩ k' ≤ ownerCount ⟨prog, .idle, regs, outs'⟩ k' := by
+    intro outs' k'
+    simp only [ownerCount, tcount, pcount, Pc.claim]
+    own_arith
+  by_cases hst : (w.sys.slot k).st = .rxBusy
+  · simp only [stepThread, if_pos hst]
+    refine hO.step_set ht k _ trivial (fun k' _ => hcnt _ k') ?_
+    intro _ R h0
+    exact Nat.le_trans (h0 (by rw [hst]; simp)) (Nat.add_le_add_left (hcnt _ k) R)
+  · simp only [stepThread, if_neg hst]
+    exact hO.step_keep ht (NoneLe.refl _) trivial (fun k' => hcnt _ k')
 
 theorem own_rxCopy (hO : MOwned w) {k : Nat} {p : List Nat}
     (ht : w.threads[tid]? = some ⟨prog, .rxCopy k p, regs, outs⟩) :
@@ -614,7 +637,9 @@ theorem own_stepThread (hI : MInv w) (hO : MOwned w) (hnc : ¬ ClobberStep w tid
   | tsMark r o bytes => exact own_tsMark hI hO ht
   | rxState i p idx => exact own_rxState hO ht
   | rxMarker i p idx => exact own_rxMarker hO ht
-  | rxClaim k p => exact own_rxClaim hO ht
+  | rxClaim k p idx => exact own_rxClaim hO ht
+  | rxVerify k p idx => exact own_rxVerify hO ht
+  | rxUnclaim k => exact own_rxUnclaim hO ht
   | rxCopy k p => exact own_rxCopy hO ht
   | rxMark k => exact own_rxMark hO ht
   | rxWake k => exact own_rxWake hO ht
